@@ -1065,7 +1065,8 @@ def m_iter_mut_for(engine, st, fr, callee, args, ops):
 ITER = r"(std::slice::Iter(Mut)?<'_, .*>|std::vec::IntoIter<.*>|(std|core)::array::IntoIter<.*>|(std::iter::|core::iter::)?(Enumerate|Rev|Skip|Take|StepBy|Chain|Zip|Copied|Cloned|Map|Filter|TakeWhile|SkipWhile)<.*>|(std::slice::)?Chunks(Exact)?<'_, .*>|(std::slice::)?Windows<'_, .*>)"
 
 MODELS = [
-    (r"^<str as ToOwned>::to_owned$", m_to_owned_str),
+    (r"^(<str as ToOwned>::to_owned|<String as From<&str>>::from|<str as ToString>::to_string|<&str as Into<String>>::into|"
+     r"<String as std::convert::From<&str>>::from|<std::string::String as From<&str>>::from|<&str as Into<std::string::String>>::into)$", m_to_owned_str),
     # integers
     (r"^core::num::<impl " + INTS + r">::(wrapping_add|wrapping_sub|wrapping_mul|checked_add|checked_sub|checked_mul|saturating_add|saturating_sub|min|max|"
      r"leading_zeros|trailing_zeros|count_ones|swap_bytes|rotate_left|rotate_right|to_le_bytes|to_be_bytes|to_ne_bytes|from_le_bytes|from_be_bytes|from_ne_bytes|"
